@@ -110,6 +110,16 @@ func registerFS() {
 		in.fs().crashed = true
 		return nil
 	}
+	// vfFSSettle: a long time passes without a crash: everything written and renamed so far
+	// has reached the disk
+	vfAPI["vfFSSettle"] = func(in *Interp, fr *frame, fn *ssa.Function, a []value) value {
+		s := in.fs()
+		for _, ino := range s.names {
+			ino.durable = len(ino.data)
+		}
+		s.renames = nil
+		return nil
+	}
 	vfAPI["vfFSOps"] = func(in *Interp, fr *frame, fn *ssa.Function, a []value) value {
 		return in.i64(int64(in.fs().ops))
 	}
